@@ -34,6 +34,10 @@ CLAIMS = {
             "All single matchers x 41 operands x 3 option settings x 40 paths exhaustively, random multi-matcher rules, ill-formed rules and repeated option keys; results of the real daemon compared with an independent Python matcher.", "4 C16"),
     "C18": ("exploration", "differential monitoring of the real validator against an independent RFC 3629 DFA (product exploration, word sweeps)",
             "Exhaustive product of validator state x reference DFA state x 256 bytes; all 2^32 words (thorough) / class-representative alphabet (quick) through the 32-bit fast path, 64-bit lanes, all split points and alignments of the chunked and auto-aligned entry points; ASan+UBSan lane and -O2 lane.", "4 C18"),
+    "C05": ("exploration", "enumerated product of transport x role x phase x ending on the simulated kernel with replica / routing / hygiene / resource monitors (runtime monitoring + ASan)",
+            "All 870 cells of the product are executed on the real daemon; monitors: victim released, its elements removed from every replica, routed requests to it answered with an error, nothing generated for it afterwards, third parties undisturbed, idle baseline.", "4 C05"),
+    "C13": ("exploration", "validity-class oracle over templates truncated / corrupted at every byte, resource monitor and ASan/LSan at shutdown (runtime monitoring)",
+            "Valid templates must get 101; requests invalid by construction must never get 101 and must get an HTTP error or a close; truncation at every byte and corruption at every position of every template; every exchange must release its connection; baseline and clean SIGTERM exit at the end.", "4 C13"),
     "C06": ("exploration", "sanitizers (ASan+UBSan+LSan) on the whole daemon under hostile inputs, with witness-connection monitor",
             "Whole daemon under gcc ASan/UBSan/LSan on the simulated kernel; hostile structured and mutated inputs on every endpoint with random segmentation, batching and buffer scribbling; witnesses must stay served.", "4 C06"),
 }
